@@ -7,45 +7,38 @@
   The reader works on a `bufio.Reader`.  What the code can observe of it through
   `ReadByte`/`UnreadByte` is: the bytes still to come, and `lastByte` (the byte the most recent
   successful `ReadByte` returned, forgotten by `UnreadByte`; a *failed* `ReadByte` at EOF leaves
-  it alone).  `UnreadByte` after a failed `ReadByte` at EOF therefore puts the last byte that
-  was read back into the stream.  `expect` does exactly that, which is why some inputs make the
-  Go code re-read the same byte for ever: the model is run with fuel, and running out of fuel is
-  the outcome "does not terminate" (`Run.overflow` for unbounded recursion of `ReadListItem`,
-  `Run.hang` for the unbounded loops of keys.go).
+  it alone, so an `UnreadByte` after a failed `ReadByte` would put the last byte that was read
+  back into the stream).  The original `expect` did exactly that and made `ImportKeys("((")` loop
+  for ever and `sexp.Read("((")` overflow the stack; the repaired code (commits 722c622,
+  cb15827 of /repo) only un-reads a byte it has just read, collects list items in a loop and
+  refuses lists nested deeper than `maxDepth`.  This file mirrors the repaired code.
 
-  Fuel.  A reader state is (position in the input, lastByte set or not): the byte that
-  `UnreadByte` restores is always the byte just before the current position, so there are at
-  most 2·(n+1) states for an input of n bytes.  `ReadListItem` is a deterministic function of
-  the reader state, so a chain of nested/tail calls that is longer than 2·(n+1) visits a state
-  twice and never ends.  `fuelFor n = 2·n + 4` is therefore enough for every terminating run,
-  and running out of it means the Go code diverges (checked by the differential profile
-  `keyfile`, not proved).
+  Termination.  Nesting is structural recursion on `maxDepth - depth`.  The item loop of
+  `readListItem` (and the loops of keys.go) run on fuel = number of bytes left + 1: every round
+  that does not end the loop consumes a byte, so the fuel cannot run out
+  (`Run.outOfFuel` is unreachable: Proofs/KeyFile.lean).
 
   Core Lean only.
 -/
 import Otr.Bytes
 namespace Otr
 
-/-- outcome of a modelled Go call that may fail to terminate -/
+/-- result of a fuelled loop -/
 inductive Run (α : Type) where
   | done (a : α)
-  /-- unbounded recursion: Go dies with "fatal error: stack overflow" (not recoverable) -/
-  | overflow
-  /-- unbounded loop (with unbounded allocation in readAccounts) -/
-  | hang
+  /-- the loop used up its fuel (the Go loop would still be running) -/
+  | outOfFuel
   deriving Repr, DecidableEq
 
 namespace Run
 def bind {α β} : Run α → (α → Run β) → Run β
   | done a, f => f a
-  | overflow, _ => overflow
-  | hang, _ => hang
+  | outOfFuel, _ => outOfFuel
 instance : Monad Run where
   pure := done
   bind := Run.bind
 @[simp] theorem bind_done {α β} (a : α) (f : α → Run β) : (Run.done a >>= f) = f a := rfl
-@[simp] theorem bind_overflow {α β} (f : α → Run β) : (Run.overflow >>= f) = Run.overflow := rfl
-@[simp] theorem bind_hang {α β} (f : α → Run β) : (Run.hang >>= f) = Run.hang := rfl
+@[simp] theorem bind_outOfFuel {α β} (f : α → Run β) : (Run.outOfFuel >>= f) = Run.outOfFuel := rfl
 @[simp] theorem pure_eq {α} (a : α) : (pure a : Run α) = Run.done a := rfl
 end Run
 
@@ -121,13 +114,13 @@ def readDataUntilAux (stop : UInt8 → Bool) : Bytes → Option UInt8 → Bytes 
 /-- ReadDataUntil -/
 def readDataUntil (r : Rd) (stop : UInt8 → Bool) : Bytes × Rd := readDataUntilAux stop r.inp r.last
 
-/-- expect: ReadWhitespace; `res, err := ReadByte`; `if res != c { UnreadByte }`;
-    `return res == c && err != io.EOF` (at EOF `res` is 0) -/
+/-- expect: ReadWhitespace; `res, err := ReadByte`; on error false (nothing is put back);
+    `if res != c { UnreadByte; return false }`; true -/
 def expect (r : Rd) (c : UInt8) : Bool × Rd :=
   let r := readWhitespace r
   match r.readByte with
   | (some b, r') => if b = c then (true, r') else (false, r'.unreadByte)
-  | (none, r') => (false, if (0 : UInt8) = c then r' else r'.unreadByte)
+  | (none, r') => (false, r')
 
 /-! ### big.Int.SetString(s, 16) -/
 
@@ -190,64 +183,85 @@ def readBigNum (r : Rd) : Sexp × Rd :=
     | (false, r) => (.goNil, r)
     | (true, r) => (.big (parseBigHex d), r)
 
-/-- ReadList, given ReadListItem; `none` = ReadListItem ran out of fuel -/
-def readListWith (item : Rd → Option (Sexp × Rd)) (r : Rd) : Option (Sexp × Rd) :=
+/-- sexp.maxDepth -/
+def maxDepth : Nat := 256
+
+/-- readList(r, depth), given readListItem(·, depth+1); `none` = `depth >= maxDepth` -/
+def readListWith (item : Option (Rd → Run (Sexp × Rd))) (r : Rd) : Run (Sexp × Rd) :=
   let r := readWhitespace r
   match expect r chLParen with
-  | (false, r) => some (.goNil, r)
+  | (false, r) => .done (.goNil, r)
   | (true, r) =>
-    match item r with
-    | none => none
-    | some (v, r) =>
-      match expect r chRParen with
-      | (false, r) => some (.goNil, r)
-      | (true, r) => some (v, r)
+    match item with
+    | none => .done (.goNil, r)
+    | some item =>
+      match item r with
+      | .outOfFuel => .outOfFuel
+      | .done (v, r) =>
+        match expect r chRParen with
+        | (false, r) => .done (.goNil, r)
+        | (true, r) => .done (v, r)
 
-/-- ReadValue, given ReadListItem: (value, end) -/
-def readValueWith (item : Rd → Option (Sexp × Rd)) (r : Rd) : Option ((Sexp × Bool) × Rd) :=
+/-- readValue(r, depth), given readList(·, depth): (value, end) -/
+def readValueWith (list : Rd → Run (Sexp × Rd)) (r : Rd) : Run ((Sexp × Bool) × Rd) :=
   let r := readWhitespace r
   match r.peek with
-  | (none, r) => some ((.goNil, true), r)
+  | (none, r) => .done ((.goNil, true), r)
   | (some c, r) =>
-    if c = chLParen then (readListWith item r).map fun (v, r) => ((v, false), r)
-    else if c = chRParen then some ((.goNil, true), r)
-    else if c = chQuote then let (v, r) := readString r; some ((v, false), r)
-    else if c = chHash then let (v, r) := readBigNum r; some ((v, false), r)
-    else let (v, r) := readSymbol r; some ((v, false), r)
+    if c = chLParen then
+      match list r with
+      | .outOfFuel => .outOfFuel
+      | .done (v, r) => .done ((v, false), r)
+    else if c = chRParen then .done ((.goNil, true), r)
+    else if c = chQuote then let (v, r) := readString r; .done ((v, false), r)
+    else if c = chHash then let (v, r) := readBigNum r; .done ((v, false), r)
+    else let (v, r) := readSymbol r; .done ((v, false), r)
 
-/-- ReadListItem with fuel (`none` = out of fuel) -/
-def readListItem : Nat → Rd → Option (Sexp × Rd)
-  | 0, _ => none
+/-- the `for` loop of readListItem: the items up to the end of the list -/
+def itemLoop (value : Rd → Run ((Sexp × Bool) × Rd)) : Nat → Rd → Run (List Sexp × Rd)
+  | 0, _ => .outOfFuel
   | fuel + 1, r =>
     let r := readWhitespace r
-    match readValueWith (readListItem fuel) r with
-    | none => none
-    | some ((_, true), r) => some (.snil, r)
-    | some ((v, false), r) =>
-      match readListItem fuel r with
-      | none => none
-      | some (tl, r) => some (.cons v tl, r)
+    match value r with
+    | .outOfFuel => .outOfFuel
+    | .done ((_, true), r) => .done ([], r)
+    | .done ((v, false), r) =>
+      match itemLoop value fuel r with
+      | .outOfFuel => .outOfFuel
+      | .done (vs, r) => .done (v :: vs, r)
 
-def fuelFor (n : Nat) : Nat := 2 * n + 4
+/-- the chain of cons cells readListItem builds from the items -/
+def consChain (vs : List Sexp) : Sexp := vs.foldr .cons .snil
 
-def liftRun {α} : Option α → Run α
-  | some a => .done a
-  | none => .overflow
+/-- readListItem(r, depth) with `budget = maxDepth - depth` -/
+def readListItemAt : Nat → Rd → Run (Sexp × Rd)
+  | 0, r =>
+    match itemLoop (readValueWith (readListWith none)) (r.inp.length + 1) r with
+    | .outOfFuel => .outOfFuel
+    | .done (vs, r) => .done (consChain vs, r)
+  | budget + 1, r =>
+    match itemLoop (readValueWith (readListWith (some (readListItemAt budget)))) (r.inp.length + 1) r with
+    | .outOfFuel => .outOfFuel
+    | .done (vs, r) => .done (consChain vs, r)
 
-/-- ReadValue on a reader whose remaining input has (at most) `n` bytes -/
-def readValue (n : Nat) (r : Rd) : Run ((Sexp × Bool) × Rd) :=
-  liftRun (readValueWith (readListItem (fuelFor n)) r)
+/-- readList(r, depth) for `depth < maxDepth`, with `budget = maxDepth - 1 - depth` -/
+def readListAt (budget : Nat) (r : Rd) : Run (Sexp × Rd) :=
+  readListWith (some (readListItemAt budget)) r
 
-/-- ReadList -/
-def readList (n : Nat) (r : Rd) : Run (Sexp × Rd) :=
-  liftRun (readListWith (readListItem (fuelFor n)) r)
+/-- ReadListItem = readListItem(r, 1) -/
+def readListItem (r : Rd) : Run (Sexp × Rd) := readListItemAt (maxDepth - 1) r
+
+/-- ReadList = readList(r, 0) -/
+def readList (r : Rd) : Run (Sexp × Rd) := readListAt (maxDepth - 1) r
+
+/-- ReadValue = readValue(r, 0) -/
+def readValue (r : Rd) : Run ((Sexp × Bool) × Rd) := readValueWith readList r
 
 /-- `sexp.Read(bufio.NewReader(bytes.NewReader(b)))`, with the reader left behind -/
 def read (b : Bytes) : Run (Sexp × Rd) :=
-  match readValue b.length ⟨b, none⟩ with
+  match readValue ⟨b, none⟩ with
   | .done ((v, _), r) => .done (v, r)
-  | .overflow => .overflow
-  | .hang => .hang
+  | .outOfFuel => .outOfFuel
 
 /-! ### printing: the Go `String()` methods -/
 
